@@ -74,6 +74,9 @@ def case_st(draw):
                 nwf=draw(st.sampled_from([0.0, 0.25, 0.5, 0.75, 1.0])), init=draw(st.sampled_from(["amn", "amn", "random"])),
                 num_iter=draw(st.sampled_from([5, 0, 1, 30])), localise=draw(st.booleans()),
                 mix=draw(st.sampled_from([1.0, 0.5])), rs=draw(st.integers(0, 2 ** 32)),
+                # rank-deficient projections ("any overlaps, projections"): a trial orbital repeated, or the projection
+                # onto one band removed at one k-point
+                deficient=draw(st.sampled_from(["no", "no", "duplicate", "zero-row"])),
                 nps=draw(st.integers(0, 2 ** 32 - 1)))
 
 
@@ -240,6 +243,12 @@ def check(case):
             mmn[ik] = M
         g = rng.normal(size=(norb, NW)) + 1j * rng.normal(size=(norb, NW))
         amn = {ik: U[ik].conj().T @ g for ik in range(NK)}
+        if case.get("deficient") == "duplicate" and NW >= 2:
+            for ik in range(NK):
+                amn[ik][:, -1] = amn[ik][:, 0]
+        elif case.get("deficient") == "zero-row":
+            ib0 = int(rng.integers(0, NB))
+            amn[int(rng.integers(0, NK))][ib0, :] = 0
     else:
         mmn = {ik: rng.normal(size=(NNB, NB, NB)) + 1j * rng.normal(size=(NNB, NB, NB)) for ik in range(NK)}
         amn = {ik: rng.normal(size=(NB, NW)) + 1j * rng.normal(size=(NB, NW)) for ik in range(NK)}
